@@ -247,6 +247,10 @@ def r3_paths(L, repo):
     fn = "CLCKGen._worker"
     L.fn(F, fn)
     mod = repo.mod("clck_gen")
+    from pyutil import unalias_callables
+    un = unalias_callables(fd)
+    if un:
+        L.extra["c09_unaliased_callables"] = un
     loops = [n for n in fd.body if isinstance(n, ast.While)]
     if len(loops) != 1:
         raise AnalysisError("_worker: expected one top-level worker loop, found %d" % len(loops))
